@@ -352,18 +352,58 @@ func Select(arr, idx *Term) *Term {
 	if idx.Sort != is {
 		panic(fmt.Sprintf("select index sort %s want %s", idx.Sort, is))
 	}
-	// read-over-write on syntactically equal / distinct numeral indices
-	for arr.K == TApp && arr.Op == "store" {
+	// read-over-write on syntactically equal / provably distinct indices, looking through named heap versions (a constant
+	// introduced by setHeap for `store(previous version, ref, value)`): a value written to a fresh object and read back is the
+	// value itself, so that the same program value is the same term on every path
+	orig := arr
+	for {
+		if arr.K == TConst {
+			if def, ok := heapDefs[arr.Op]; ok {
+				arr = def
+				continue
+			}
+		}
+		if arr.K != TApp || arr.Op != "store" {
+			break
+		}
 		if sameTerm(arr.Args[1], idx) {
 			return arr.Args[2]
 		}
-		if arr.Args[1].K == TNum && idx.K == TNum {
+		if distinctIndex(arr.Args[1], idx) {
 			arr = arr.Args[0]
 			continue
 		}
 		break
 	}
+	if arr.K == TApp && arr.Op == "store" {
+		arr = orig // undecided at some store: keep the short name
+	}
 	return app("select", es, arr, idx)
+}
+
+// heapDefs: named heap versions of the unit being verified (constant name -> the store term it stands for).
+var heapDefs = map[string]*Term{}
+
+// distinctIndex: two references allocated by this unit at different offsets of the allocation counter, or two different numerals.
+func distinctIndex(a, b *Term) bool {
+	if a.K == TNum && b.K == TNum {
+		return a.Num.Cmp(b.Num) != 0
+	}
+	ba, ka, oka := baseOffset(a)
+	bb, kb, okb := baseOffset(b)
+	return oka && okb && ba == bb && ka != kb
+}
+
+func baseOffset(t *Term) (string, int64, bool) {
+	if t.K == TConst && (t.Op == "ref:base" || strings.HasPrefix(t.Op, "ref:next")) {
+		return t.Op, 0, true
+	}
+	if t.K == TApp && t.Op == "+" && len(t.Args) == 2 && t.Args[1].K == TNum && t.Args[1].Num.IsInt64() {
+		if b, k, ok := baseOffset(t.Args[0]); ok {
+			return b, k + t.Args[1].Num.Int64(), true
+		}
+	}
+	return "", 0, false
 }
 func Store(arr, idx, v *Term) *Term {
 	is, es := arrSorts(arr.Sort)
